@@ -10,8 +10,9 @@ while [ ! -f /tmp/sens/STOP ]; do
     grep -q "demo_clean_rc=0 suite_patched_rc=0 demo_patched_rc=[1-9]" "$d/confirm.log" 2>/dev/null || continue
     if [ $pass -eq 1 ]; then ids="$own"; else ids="$ALL"; fi
     todo=""
-    rev=$(git -C /verif rev-parse --short HEAD)
-    for id in $ids; do grep -q "^$n $id seed=${VERIF_SEED:-0} rc=[0-9]* verif=${SEED_REV:-$rev} " "$d/matrix.txt" 2>/dev/null || todo="$todo $id"; done
+    tag=$(cat /verif/out/SEED_TAG 2>/dev/null || echo t0)
+    export SEED_TAG="$tag"
+    for id in $ids; do grep -q "^$n $id seed=${VERIF_SEED:-0} rc=[0-9]* verif=[0-9a-f]*/$tag " "$d/matrix.txt" 2>/dev/null || todo="$todo $id"; done
     [ -z "$todo" ] && continue
     /verif/tools/seed_matrix.sh "$n" $todo >> /verif/out/matrix-queue.log 2>&1
     did=1
